@@ -121,7 +121,7 @@ def cost_case(draw, classes=("E", "E", "F"), shapes=("tiny", "tiny", "tiny", "sm
 def e2e_config(draw, front=("single", "single", "joint"), max_N=3, max_W=4, max_K=4, t_range=(30, 120),
                limits=(1, 2, 3, 5, 5, 30, 30), betas=(0.0, 1.0, 10.0, 100.0, 1000.0), lam_forms=("scalar", "scalar", "const_matrix", "random_matrix"),
                beta_forms=("scalar", "scalar", "scalar", "vector"), eps_values=(0,), allow_degenerate=False, scales=False,
-               max_series=6, procs=(1,), allow_short=False, offsets=(), scale_prob=1.0, m_large=False):
+               max_series=6, procs=(1,), allow_short=False, offsets=(), scale_prob=1.0, m_large=False, joint_vector=False):
     fr = draw(st.sampled_from(list(front)))
     N = draw(st.integers(1, max_N))
     W = draw(st.integers(1, max_W))
@@ -164,9 +164,13 @@ def e2e_config(draw, front=("single", "single", "joint"), max_N=3, max_W=4, max_
     }
     if cfg["beta_form"] == "vector" and draw(st.booleans()):
         cfg["beta_vector_seed"] = draw(st.integers(0, 2 ** 16))
-    if fr == "joint":
-        cfg["beta_form"] = "scalar"          # the joint front end documents a scalar switching cost
+    if cfg["beta_form"] == "vector" and draw(st.booleans()):
+        cfg["beta_zero_at"] = sorted(draw(st.sets(st.sampled_from(
+            ["first", "second", "second_to_last", "last", "pair_in_the_middle", "scattered"]), min_size=1, max_size=3)))
+    if fr == "joint" and not joint_vector:
+        cfg["beta_form"] = "scalar"          # (checks whose oracle reads the cost as a scalar keep it one for joint runs)
         cfg.pop("beta_vector_seed", None)
+        cfg.pop("beta_zero_at", None)
     if offsets:
         cfg["data_offset"] = draw(st.sampled_from(list(offsets)))
     if m_large and draw(st.integers(0, 5)) == 0:
@@ -179,6 +183,23 @@ def e2e_config(draw, front=("single", "single", "joint"), max_N=3, max_W=4, max_
         if draw(st.integers(0, 3)) == 0:
             cfg["duplicate_rows"] = True
     return cfg
+
+
+@st.composite
+def e2e_wide_series_config(draw):
+    """A single series with fewer rows than sensors (T < N), and the square case: nothing in the documented interface relates
+    the two data dimensions, so the rows stay the time steps."""
+    W = draw(st.integers(1, 2))
+    T = draw(st.integers(8, 18))
+    N = T + draw(st.integers(0, 8)) if draw(st.integers(0, 4)) else max(2, T - draw(st.integers(1, 3)))
+    return {
+        "front": "single", "N": N, "W": W, "K": draw(st.integers(2, 3)), "lengths": [T + W - 1], "regimes": 2,
+        "mean_spread": draw(st.sampled_from([2.0, 6.0])), "data_seed": draw(st.integers(0, 2 ** 31 - 1)),
+        "np_seed": draw(st.integers(0, 2 ** 31 - 1)), "py_seed": draw(st.integers(0, 2 ** 31 - 1)),
+        "beta": draw(st.sampled_from([0.0, 1.0, 10.0])), "beta_form": "scalar",
+        "lam": draw(st.sampled_from([0.11, 0.5])), "lam_form": "scalar", "limit": draw(st.sampled_from([1, 2, 3])),
+        "m": 2, "biased": draw(st.booleans()), "eps": 0, "num_processors": 1, "boundary_regime_flip": False,
+    }
 
 
 @st.composite
